@@ -667,4 +667,123 @@ register('C12', [l2_suite('changes', native=False, name='l2-changes')], [])
 register('C11', [l2_suite('changes', native=False, name='l2-changes'), l1_suite(['rows', 'plain'])], [])
 register('C16', [l2_suite('multi', native=False, extra_monitor=c02_monitor, name='l2-multi'), l0_suite(['nodecodec']), l1_suite(['rows'])], [])
 register('C14', [l1_suite(['rows', 'plain', 'cb'], name='l1f', quick=250)], [])
-register('C03', [l1_suite(['rows', 'plain'], name='l1f', quick=200)], [])
+# ---------------------------------------------------------------- L1 scheduled concurrency (C03)
+def parse_sched_case(case):
+    t = case.split()
+    i = 4  # id schedhist mode bf
+    nsetup = int(t[i]); i += 1
+    setup_keys = []
+    for _ in range(nsetup):
+        setup_keys.append(int(t[i])); i += 3
+    merge = t[i] == 't'; i += 1
+    if merge:
+        n = int(t[i]); i += 1 + n
+        n = int(t[i]); i += 1 + n
+    nc = int(t[i]); i += 1
+    clients = []
+    for _ in range(nc):
+        kind, key = t[i], int(t[i + 1]); i += 5
+        n = int(t[i]); i += 1 + n
+        n = int(t[i]); i += 1 + n
+        clients.append((kind, key))
+    return setup_keys, clients
+
+def parse_sched_out(line):
+    """-> ({client: (status, start, end, [keys])}, cur, mrg, final (status, keys))"""
+    parts = [x.split() for x in line.split(' ; ')][1:]
+    clients, cur, mrg, fin = {}, None, None, None
+    def keys_of(toks):
+        n = int(toks[0]); ks = []; i = 1
+        for _ in range(n):
+            ks.append(int(toks[i + 1])); i += 3          # I <key> <md>
+            i += 2 if toks[i] == 'S' else 1              # S <val> | _
+        return ks
+    for p in parts:
+        if p[0].startswith('C') and p[0][1:].isdigit():
+            c = int(p[0][1:])
+            if p[1] == 'ok':
+                clients[c] = ('ok', int(p[2]), int(p[3]), keys_of(p[4:]))
+            elif p[1] == 'err':
+                clients[c] = ('err', int(p[2]), int(p[3]), [])
+            else:
+                clients[c] = (p[1], -1, -1, [])
+        elif p[0] == 'cur': cur = [int(x) for x in p[2:]]
+        elif p[0] == 'mrg': mrg = [int(x) for x in p[2:]]
+        elif p[0] == 'F': fin = (p[1], keys_of(p[2:]) if p[1] == 'ok' else [])
+    return clients, cur, mrg, fin
+
+def c03_monitor(ctx, res, case, impl_line):
+    setup_keys, cl = parse_sched_case(case)
+    clients, cur, mrg, fin = parse_sched_out(impl_line)
+    def fail(what, **kw):
+        shape = kw.pop('shape', None)
+        m = dict(suite=res.name, case=case, what=what, impl=impl_line[:1500], **kw)
+        kid = known_match(ctx, shape) if shape else None
+        if kid:
+            m['finding'] = kid; res.known_hits.append(m)
+        else:
+            res.property_failures.append(m)
+    for c, (st, start, end, keys) in clients.items():
+        if st not in ('ok',):
+            fail(f'client {c} ({cl[c][0]}) did not complete: {st} (no request failed in this run)')
+            return
+        # every version whose commit had completed before this client's open began
+        need = set(setup_keys)
+        for w, (wst, ws, we, _) in clients.items():
+            if w != c and cl[w][0] == 'W' and wst == 'ok' and we < start:
+                need.add(cl[w][1])
+        missing = sorted(need - set(keys))
+        if missing:
+            fail(f'client {c} ({cl[c][0]}) opened at step {start} and does not see rows {missing} whose commits had completed before',
+                 client=c, missing=missing)
+            return
+    if fin is None or fin[0] != 'ok':
+        fail('a reader opened after all clients finished cannot read the table')
+        return
+    need = set(setup_keys) | {cl[w][1] for w, (wst, _, _, _) in clients.items() if cl[w][0] == 'W' and wst == 'ok'}
+    missing = sorted(need - set(fin[1]))
+    if missing:
+        fail(f'acknowledged rows {missing} are not in the merged view of a later open', missing=missing)
+
+def l1s_suite(quick=400, thorough=20000):
+    def f(ctx):
+        res = Result('l1s', 'L1 scheduled concurrency: 2-3 clients (read-only opener, read-write opener, writer = open+set+commit) '
+                     'against one in-process bucket; every LIST/GET of a version/PUT/DELETE of every client is a scheduling point and a '
+                     'generated schedule (bursty list of client indices) decides which client performs its next request; the same schedule '
+                     'is replayed on the Coq model (Sched.v, Client.v); compared: what each client read, the step numbers of its first and '
+                     'last request, the final listings of current/ and merged/, a final read; non-trivial = a run in which some client '
+                     'performs a request between the LIST and the last request of another client\'s open')
+        outdir = os.path.join(ctx.out, f'l1s-{ctx.prop}')
+        n = ctx.n(quick, thorough)
+        r = harness(ctx, 'l1s', ctx.seed_for('l1s'), n, outdir, '', corpus='l1s')
+        if r.returncode != 0:
+            res.mismatches.append(dict(suite=res.name, case='harness failed', impl=(r.stderr or r.stdout)[-2000:], model=''))
+            return res
+        cases = open(f'{outdir}/cases.txt').read().splitlines()
+        impl = open(f'{outdir}/impl.txt').read().splitlines()
+        model = open(f'{outdir}/model.txt').read().splitlines()
+        for k, c in enumerate(cases):
+            res.evaluations += 1
+            a = impl[k] if k < len(impl) else '<missing>'
+            m = model[k] if k < len(model) else '<missing>'
+            try:
+                clients, _, _, _ = parse_sched_out(a)
+                iv = sorted((s, e) for (_, s, e, _) in clients.values())
+                if any(iv[i + 1][0] < iv[i][1] for i in range(len(iv) - 1)):
+                    res.nontrivial += 1
+            except Exception:
+                pass
+            if a.split() != m.split():
+                res.mismatches.append(dict(suite=res.name, case=c, impl=a[:2000], model=m[:2000]))
+            try:
+                c03_monitor(ctx, res, c, a)
+            except Exception as e:
+                res.mismatches.append(dict(suite=res.name, case=c, impl=a[:1000], model='monitor could not parse: %r' % (e,)))
+            if len(res.samples) < 2 and k % 37 == 5:
+                res.samples.append(dict(case=c[:500], impl=a[:400]))
+        res.stats = read_stats(outdir)
+        return res
+    return f
+
+register('C03', [l1s_suite(), l1_suite(['rows', 'plain'], name='l1f', quick=120)],
+         ['requests are atomic; between two scheduling points only one client runs; reads of node objects (immutable, never deleted at this level) are not scheduling points'])
